@@ -480,7 +480,10 @@ func handleFailure(o *Options, run *propRun, r *OblResult, p *Program) (string, 
 		}
 	}
 	replayed := false
-	if !o.NoReplay && r.Status == "failed" {
+	// an obligation the solvers could not decide (or a function the engine could not bring under the
+	// contract any more) is still replayed: several harnesses concretise the input classes the
+	// obligation names without needing a model
+	if !o.NoReplay && (r.Status == "failed" || r.Status == "undecided") {
 		ok, out, cmd := tryReplay(o, run.ID, rec)
 		rec["replay_cmd"] = cmd
 		rec["replay_output"] = out
